@@ -10,6 +10,7 @@ from .common import MachineryError, run_tlc, tlc_failure_excerpt
 class BatchResult:
     def __init__(self):
         self.verdicts = {}  # (unit index, input index) 0-based -> verdict string
+        self.terminals = {}  # (unit index, input index) -> number of terminal states (> 1 when TLC branched)
         self.steps = {}  # (unit index, input index) -> length of the behaviour (machine steps)
         self.scope = {}  # unit index -> WellScoped verdict of the spec (ExoProgram!WellScoped)
         self.states = 0
@@ -57,8 +58,13 @@ def run_units(units, workdir, stepbound=6000, timeout=1500, max_batch_bytes=24_0
         for rec in r.records:
             if isinstance(rec, dict) and "u" in rec and "i" in rec:
                 k = batch[rec["u"] - 1][0]
-                res.verdicts[(k, rec["i"] - 1)] = rec["v"]
-                res.steps[(k, rec["i"] - 1)] = rec.get("n", 0)
+                key = (k, rec["i"] - 1)
+                # a unit that lets TLC branch (iteration orders of parallel loops) ends in several terminal states per
+                # input: the input's verdict is "ok" only if every one of them is
+                if res.verdicts.get(key, "ok") == "ok":
+                    res.verdicts[key] = rec["v"]
+                res.steps[key] = max(res.steps.get(key, 0), rec.get("n", 0))
+                res.terminals[key] = res.terminals.get(key, 0) + 1
                 if rec["i"] == 1:
                     res.scope[k] = (bool(rec.get("wsa", True)), bool(rec.get("wsb", True)))
         os.unlink(path)
